@@ -39,7 +39,7 @@ inline uint64_t exercise_all(const vapi *A, ExObjs *objs, const char *p, size_t 
     if (which & 2)
         for (int m = 0; m < 4; m++) { if (only_mode >= 0 && m != only_mode) continue; for (int t = 0; t < 2; t++) { A->email_direct(m, p, n, t, &o); h = dig(h, o); } }
     if (which & 4) {
-        int r[40], k = 0, ir = 0;
+        int r[48], k = 0, ir = 0;
         for (int w = VP_822_LOCAL; w <= VP_6531_LOCAL; w++) { r[k++] = A->part(w, p, e, 0, nullptr); if (at) r[k++] = A->part(w, p, at, 0, nullptr); }
         const char *d = at ? at + 1 : p;
         r[k++] = A->part(VP_ASCII_DOMAIN, p, e, 0, nullptr); r[k++] = A->part(VP_ASCII_DOMAIN, d, e, 0, nullptr);
@@ -51,6 +51,9 @@ inline uint64_t exercise_all(const vapi *A, ExObjs *objs, const char *p, size_t 
         { const char *dot = nullptr; for (const char *q = d; q < e; q++) if (*q == '.') dot = q; if (dot) r[k++] = A->part(VP_TLD, dot + 1, e, 0, nullptr); }
         r[k++] = A->part(VP_SPECIAL, d, e, 0, nullptr);
         if (d != p) r[k++] = A->part(VP_SPECIAL, p, e, 0, nullptr);
+        // [start,end) ranges that stop before the terminator (as the local-part calls above do at '@'): the bytes after `end` belong to
+        // the caller and must not be written; what the verdict should be is not judged, only memory behaviour and determinism
+        if (e - d >= 3) { const char *e2 = e - 1; r[k++] = A->part(VP_ASCII_DOMAIN, d, e2, 0, nullptr); r[k++] = A->part(VP_UTF8_DOMAIN, d, e2, 1, &ir); r[k++] = A->part(VP_TLD, d, e2, 0, nullptr); r[k++] = A->part(VP_IPADDR, d, e2, 0, nullptr); }
         h = hashb(r, sizeof(int) * k, h);
     }
     return h;
